@@ -12,6 +12,11 @@ ASSUMPTIONS = ["pytables Table.read_coordinates(coords, field=name) returns that
 NOT_DECIDED = ["n_linear_samples > 1 together with return_logprobs: the real code raises on a column-length mismatch (returns nothing)"]
 
 
+# the plumbing this property's claim runs through (contracts/chain.py): listed here too, so that a change inside it is caught by THIS check
+from . import chain as CH   # noqa: E402
+CH.extend(CONTRACTS, CH.readers() + CH.plumbing() + CH.tables() + CH.wrapper())
+
+
 def EXTRA():
     # return_logprobs / return_all_logprobs reach the function that attaches the values
     from jvc import effects
